@@ -927,4 +927,12 @@ theorem hex_uint64_inverse_iff (t : List Byte) (hl : t.length = 16) :
 example : hexEncode (hexDecode [0x41, 0x39]) = [0x41, 0x39] ∧ hexEncode (hexDecode [0x61, 0x39]) ≠ [0x61, 0x39] ∧
     hexEncode (hexDecode [0x41, 0x39, 0x41]) ≠ [0x41, 0x39, 0x41] := by decide
 
+/-- base64: re-encoding the decoder's result gives the text back exactly on the encoder's range (canonical
+texts) and nowhere else - together with `b64_roundtrip` the two routines are mutually inverse bijections between
+all byte strings and the canonical texts -/
+theorem b64_canonical_iff (t : List Byte) : b64Encode (b64Decode t) = t ↔ ∃ x, b64Encode x = t :=
+  ⟨fun h => ⟨_, h⟩, fun ⟨x, hx⟩ => by rw [← hx, b64_roundtrip]⟩
+theorem b64url_canonical_iff (t : List Byte) : b64urlEncode (b64urlDecode t) = t ↔ ∃ x, b64urlEncode x = t :=
+  ⟨fun h => ⟨_, h⟩, fun ⟨x, hx⟩ => by rw [← hx, b64url_roundtrip]⟩
+
 end Igris.C18
